@@ -727,6 +727,7 @@ func (e *Enc) inline(fr *frame, st *State, fn *ssa.Function, args, bindings []Va
 	defer func() { e.depth-- }()
 	nf := e.newFrame(fn, prefix+"_"+sanitize(fn.Name())+"_")
 	nf.inlined = true
+	nf.parent = fr
 	for i, p := range fn.Params {
 		nf.vals[p] = args[i]
 	}
@@ -990,6 +991,16 @@ func (e *Enc) frameEnv(fr *frame, st *State) *SpecEnv {
 				}
 			} else {
 				vars[name] = d.val
+			}
+		}
+	}
+	// a closure called in place also sees the variables of the function it is
+	// inlined into (as defined at the call), unless it declares the same name
+	if fr.inlined && fr.parent != nil && fr.fn.Parent() == fr.parent.fn {
+		penv := e.frameEnv(fr.parent, st)
+		for name, val := range penv.vars {
+			if _, shadow := vars[name]; !shadow && !ambiguous[name] {
+				vars[name] = val
 			}
 		}
 	}
